@@ -197,17 +197,17 @@ def _line_kind_tag(text, lineno):
     return k[0]
 
 
-def _is_known_defect(text, obs_trace, obs_final):
+def _is_known_defect(text, obs_trace, obs_defs, obs_final):
     """The parser behaves exactly like the known-defect model of C05."""
     try:
         ev = T.parse_events(
             text, env=os.environ,
             define_step=T.define_step_compares_unexpanded)
-        trace, final, exc = ev.trace, ("ok",), None
+        final, exc = ("ok",), None
     except T.RefError as e:
-        trace, final, exc = e.events.trace, _ref_final(e), e
+        ev, final, exc = e.events, _ref_final(e), e
     return _final_matches(final, exc, obs_final) is None and \
-        trace == obs_trace
+        ev.trace == obs_trace and ev.defines == obs_defs
 
 
 def _sig(text, what, exp, obs):
@@ -244,7 +244,8 @@ def check_text(col, text, do_events=True):
     if not bad and edefs != odefs:
         bad = "defines"
     if bad:
-        if "%define" in text and _is_known_defect(text, otrace, ofinal):
+        if "%define" in text and _is_known_defect(text, otrace, odefs,
+                                                    ofinal):
             sig = "C05:redefine-compares-unexpanded"
         elif bad == "defines":
             sig = "C03:parser-defines-differ"
@@ -348,21 +349,26 @@ def rand_text(rnd):
 
 def jobs(tier, seed):
     """Picklable job descriptors; the union of texts_of(job) is the corpus."""
+    nv = range(len(VOCAB))
     if tier == "quick":
         maxlen, nrand = 5, 20000
         out = [("lines", None, maxlen)]
         out += [("lines", a + b, maxlen) for a in ALPHA for b in ALPHA]
-        out += [("tokens", "full", (a,), 3) for a in range(len(VOCAB))]
-        out += [("tokens", "small", (a,), 4) for a in range(len(VOCAB_SMALL))]
+        out += [("tokens", "full", (a,), 1, 3, "both") for a in nv]
+        out += [("tokens", "small", (a,), 4, 4, "both")
+                for a in range(len(VOCAB_SMALL))]
     else:
-        maxlen, nrand = 6, 400000
+        maxlen, nrand = 6, 200000
         out = [("lines", None, maxlen)]
         out += [("lines", a + b, 2) for a in ALPHA for b in ALPHA]
         out += [("lines", a + b + c, maxlen) for a in ALPHA for b in ALPHA
                 for c in ALPHA]
-        out += [("tokens", "full", (a, b), 4) for a in range(len(VOCAB))
-                for b in range(len(VOCAB))]
-        out += [("tokens", "full", (a,), 1) for a in range(len(VOCAB))]
+        # up to 4 lines with the last line terminated; the unterminated
+        # variants for up to 3 lines
+        out += [("tokens", "full", (a, b), 2, 4, "terminated")
+                for a in nv for b in nv]
+        out += [("tokens", "full", (a,), 1, 1, "both") for a in nv]
+        out += [("tokens", "full", (a,), 2, 3, "unterminated") for a in nv]
     per = 1000
     out += [("random", seed, b, per) for b in range(nrand // per)]
     return out
@@ -382,15 +388,17 @@ def texts_of(job):
             for i, text in enumerate(embed(line)):
                 yield text, "line%d" % i, line
     elif job[0] == "tokens":
-        _, which, first, maxlines = job
+        _, which, first, minlines, maxlines, mode = job
         vocab = VOCAB if which == "full" else VOCAB_SMALL
         head = [vocab[i] for i in first]
-        for n in range(0, maxlines - len(head) + 1):
+        for n in range(max(0, minlines - len(head)),
+                       maxlines - len(head) + 1):
             for t in itertools.product(vocab, repeat=n):
                 lines = head + list(t)
                 text = "\n".join(lines) + "\n"
-                yield text, "tokens", text
-                if n == maxlines - len(head) and lines[-1] != "":
+                if mode != "unterminated":
+                    yield text, "tokens", text
+                if mode != "terminated" and lines[-1] != "":
                     # the last line without a line terminator
                     yield text[:-1], "tokens", text[:-1]
     else:
@@ -449,7 +457,7 @@ def run(tier, seed):
                  "3 lines" if quick else "4 lines", len(VOCAB),
                  " and of <= 4 lines over %d of them" % len(VOCAB_SMALL)
                  if quick else "",
-                 20000 if quick else 400000),
+                 20000 if quick else 200000),
         rule="exhaustive products (lines over characters, texts over whole "
              "lines, last line with and without terminator) and seeded "
              "generation; an evaluation is one text at one observation "
